@@ -333,6 +333,7 @@ def c044(ctx):
     c048(ctx)
     c049(ctx)
     c0410(ctx)
+    c0411(ctx)
     # ---- C04.6
     rp = P.fn('ripd::continuities::ContinuityStore::replay_events')
     ctx.touch(rp)
@@ -486,3 +487,27 @@ def c0410(ctx, rid='C04.10'):
             ctx.ob(rid, f, 'read-bytes-reach-the-parser', not sh, 'read loop at line %d: %s' % (r.line, 'no byte buffer is shortened inside it' if not sh else
                    '%s (line %d) shortens a byte buffer inside the loop: bytes that were read never reach the parser' % (sh[0].name, sh[0].line)), line=sh[0].line if sh else r.line)
     ctx.floor(rid, 'read loops in the cache modules', n, 1)
+
+
+def c0411(ctx):
+    """a rebuild from truth reconciles EVERY derived cache of the thread, not only the missing ones."""
+    P = ctx.prog
+    ctx.rule('C04.11', 'a rebuild reconciles every derived cache: in ContinuityStreamCache::rebuild_best_effort, once the full sidecar was rewritten from the replayed truth (its seek index written), every path to the return passes each rebuild_*_best_effort call of the derived sidecars — none is gated on whether its file already exists. The rebuild runs exactly when a cache was found missing or unusable, i.e. when best-effort appends were skipped; a derived sidecar that merely exists is then stale.')
+    f = P.fn('ripd::continuity_stream_cache::ContinuityStreamCache::rebuild_best_effort')
+    ctx.touch(f)
+    subs = f.calls(r'ContinuityStreamCache::rebuild_\w+_best_effort\w*$')
+    ctx.floor('C04.11', 'derived-cache rebuild calls in rebuild_best_effort', len(subs), 2)
+    # the point from which the full sidecar of the thread has been rewritten: the write of its seek index (the last
+    # step of the full-sidecar rebuild), or — if that step is gone — the first derived rebuild itself
+    starts = f.calls(r'SidecarIndexBuilderV1::write_best_effort$|^std::fs::rename$')
+    from_bb = starts[-1].bb if starts else min(s_.bb for s_ in subs)
+    for s_ in subs:
+        ok = f.must_pass([s_.bb], from_bb, f.returns()) if from_bb != s_.bb else True
+        ctx.ob('C04.11', f, 'rebuild-unconditional:' + s_.name, ok, '%s %s' % (s_.name, 'is on every path from the rewritten sidecar to the return' if ok else
+               'can be SKIPPED after the sidecar was rewritten (gated on the state of its file): a stale derived sidecar survives the rebuild'), line=s_.line)
+
+
+def ok_edge_of_try_local(f, site):
+    from .c01 import ok_edge_of_try
+    e = ok_edge_of_try(f, site)
+    return e[1] if e is not None and e[1] is not None else None
